@@ -333,6 +333,118 @@ def process_matrix(shape, cards, names, envs) -> list:
     return problems[:6]
 
 
+# -- native: the output does not depend on what the process serialised before ------------------------
+
+def model_variant(shape, cards, names, variant):
+    """variant 0: as model(); 1: the children of every relation in reverse order (every relation compares
+    and hashes equal to its original, the text differs); 2: the relations of every feature in reverse order."""
+    m = model(shape, cards, names=names)
+    if variant:
+        reorder_in_place(m, variant)
+    return m
+
+
+def reorder_in_place(m, variant):
+    for f in _index(m):
+        if variant == 1:
+            for r in f.relations:
+                r.children.reverse()
+        elif variant == 2:
+            f.relations.reverse()
+
+
+HIST_CHILD = r'''
+import sys, json, hashlib, os
+sys.setrecursionlimit(10000)
+from fmverif.props import c12
+steps = json.loads(sys.argv[1]); outdir = sys.argv[2]
+res = []
+m = None
+for si, st in enumerate(steps):
+    if st[0] == 'build':
+        _, shape, cards, names, variant = st
+        ms = {label: c12.model_variant(c12.totuple(shape), [tuple(c) for c in cards], (names if label != 'afm' else None), variant) for label, _ in c12.WRITERS}
+    else:                                   # ('mutate', variant): the same objects, re-ordered in place
+        for label in ms:
+            c12.reorder_in_place(ms[label], st[1])
+    out = {}
+    for label, cls in c12.WRITERS:
+        p = os.path.join(outdir, 'out%d.%s' % (si, label))
+        cls(p, ms[label]).transform()
+        out[label] = hashlib.sha1(open(p, 'rb').read()).hexdigest()
+    res.append(out)
+print(json.dumps(res))
+'''
+
+
+def _run_steps(steps, d, tag):
+    here = os.path.dirname(os.path.dirname(os.path.dirname(os.path.abspath(__file__))))
+    e = dict(os.environ)
+    e['PYTHONPATH'] = (os.environ['FMV_REPO'] + os.pathsep + here) if os.environ.get('FMV_REPO') else here
+    e['PYTHONHASHSEED'] = '0'
+    sub = os.path.join(d, tag)
+    os.makedirs(sub)
+    p = subprocess.run([sys.executable, '-c', HIST_CHILD, json.dumps(steps), sub], env=e, stdout=subprocess.PIPE, stderr=subprocess.PIPE, text=True, timeout=300)
+    if p.returncode != 0:
+        raise RuntimeError('writer process failed: %s' % (p.stderr.strip().splitlines()[-1][:300] if p.stderr.strip() else p.returncode))
+    return json.loads(p.stdout.strip().splitlines()[-1])
+
+
+def history_matrix(spec_a, spec_b, mutate) -> list:
+    """'The output is a function of the model alone': process 1 writes A, then B, then (mutate != 0) re-orders
+    B's objects in place and writes again; process 2 writes the re-ordered B first (fresh interpreter), then B,
+    then A. Every model must give the same bytes in both processes, whatever was written before it."""
+    a = ['build'] + list(spec_a)
+    b = ['build'] + list(spec_b)
+    bm = ['build'] + list(spec_b[:3]) + [mutate]      # only meaningful when spec_b's variant is 0
+    problems = []
+    with rt.TempDir() as d:
+        try:
+            p1 = _run_steps([a, b] + ([['mutate', mutate]] if mutate else []), d, 'p1')
+            p2 = _run_steps(([bm] if mutate else []) + [b, a], d, 'p2')
+        except RuntimeError as exc:
+            return [str(exc)]
+    off = 1 if mutate else 0
+    for label, _ in WRITERS:
+        if p1[0][label] != p2[off + 1][label]:
+            problems.append('%s: the bytes written for model A differ between a fresh interpreter and one that wrote model B before' % label)
+        if p1[1][label] != p2[off][label]:
+            problems.append('%s: the bytes written for model B after writing model A differ from those written %s' % (label, 'after its re-ordered twin' if mutate else 'by a fresh interpreter'))
+        if mutate and p1[2][label] != p2[0][label]:
+            problems.append('%s: a model re-ordered in place after it was written is not written like the same model in a fresh interpreter' % label)
+    return problems[:6]
+
+
+def batch_history(max_n, seed, count):
+    rnd = random.Random(seed)
+    res = {'instances': 0, 'nontrivial': 0, 'violations': [], 'native_runs': 0}
+    shapes = [s for s in R.shapes(max_n) if R.n_features(s) >= 3 and any(len(cs) > 1 for _, cs in R.relations_of(s))]
+    for i in range(count):
+        shape = rnd.choice(shapes)
+        cards = rnd.choice(list(R.all_cards(shape)))
+        kind = i % 4
+        if kind == 0:      # B = A with the children of every relation reversed (relations compare equal)
+            a, b, mut = [shape, cards, None, 0], [shape, cards, None, 1], 0
+        elif kind == 1:    # B = same names, other cardinalities; then B re-ordered in place
+            a, b, mut = [shape, cards, None, 0], [shape, rnd.choice(list(R.all_cards(shape))), None, 0], 1
+        elif kind == 2:    # B = another shape over the same names; relations re-ordered in place
+            s2 = rnd.choice([s for s in shapes if R.n_features(s) == R.n_features(shape)])
+            a, b, mut = [shape, cards, None, 0], [s2, rnd.choice(list(R.all_cards(s2))), None, 0], 2
+        else:              # B = A with the relations of every feature reversed
+            a, b, mut = [shape, cards, None, 0], [shape, cards, None, 2], 0
+        res['instances'] += 1
+        res['native_runs'] += 2
+        res['nontrivial'] += 1
+        bad = history_matrix(a, b, mut)
+        if bad:
+            res['violations'].append({'label': 'writer-history', 'detail': bad[0] + ' | A = %s %r, B = %s %r variant %d, in-place re-ordering %d' % (R.shape_str(shape), cards, R.shape_str(totuple(b[0])), b[1], b[3], mut),
+                                      'replay_func': 'history_matrix', 'replay_args': [a, b, mut]})
+            if len(res['violations']) >= 3:
+                return res
+        res['sample'] = {'A': [R.shape_str(shape), cards], 'B': [R.shape_str(totuple(b[0])), b[1], 'variant %d' % b[3]], 'in_place': mut}
+    return res
+
+
 ENVS_QUICK = [{'PYTHONHASHSEED': '0'}, {'PYTHONHASHSEED': '1', 'LC_ALL': 'C', 'PYTHONUTF8': '0', 'PYTHONCOERCECLOCALE': '0'}, {'PYTHONHASHSEED': '12345', 'LC_ALL': 'POSIX', 'PYTHONIOENCODING': 'latin-1', 'PYTHONUTF8': '0', 'PYTHONCOERCECLOCALE': '0'}]
 ENVS_THOROUGH = ENVS_QUICK + [{'PYTHONHASHSEED': str(s)} for s in (2, 3, 7, 99, 4242)] + [{'PYTHONHASHSEED': '5', 'PYTHONUTF8': '1'}, {'PYTHONHASHSEED': 'random'}]
 
@@ -431,6 +543,7 @@ def batches(tier, seed):
     step = total // 8 + 1
     b = [('batch_pure', [N, lo, lo + step, seed + lo]) for lo in range(0, total, step)]
     b += [('batch_processes', [N, seed * 11 + i, 1 if tier == 'quick' else 6, tier != 'quick']) for i in range(4)]
+    b += [('batch_history', [N, seed * 13 + i, 4 if tier == 'quick' else 24]) for i in range(4)]
     return b
 
 
@@ -439,6 +552,7 @@ def info(tier):
         'assumptions': ['set iteration order = arbitrary permutation: every writer module is re-loaded from the current source with set displays / comprehensions / set() calls turned into a list-backed NDSet whose iteration order is chosen by a symbolic Lehmer code',
                         'file objects: the module-level name open of each writer module is bound to a sink that records mode, encoding and the pieces written',
                         'fresh interpreter / hash seed / locale clauses: real sub-processes with PYTHONHASHSEED, LC_ALL, PYTHONUTF8, PYTHONIOENCODING varied (concrete runs, counted apart)',
+                        'history clause: pairs of models over the same names (children reversed, relations reversed, other cardinalities, other shape; also the same objects re-ordered in place) written in two orders by two interpreter processes: every model must give the same bytes whatever was written before (concrete runs, counted apart)',
                         'models here may lie outside a format fragment: purity and determinism are required of every writer on every well-formed model'],
         'coverage': {'functions_encoded': [c.__name__ + '.transform' for _, c in WRITERS] + ['all module-level writer functions they call'],
                      'bounds': {'shapes': 'N<=%d' % (4 if tier == 'quick' else 5), 'permutation_codes': '0..719', 'name_len': 2 if tier == 'quick' else 3},
